@@ -1054,7 +1054,11 @@ impl Snapshot {
 }
 
 /// Manifest: tracks valid snapshots and WAL segments
+///
+/// The file carries no checksum, so unknown keys are rejected: a damaged key name must not
+/// silently turn into "field absent" (e.g. no snapshot pointer) during recovery.
 #[derive(Debug, Clone, Serialize, Deserialize)]
+#[serde(deny_unknown_fields)]
 pub struct Manifest {
     pub version: u32,
     pub latest_snapshot: Option<String>,
